@@ -314,7 +314,7 @@ def exec_history(job):
 HEADINGS = ["= H1", "= H2", "= H3", "== X"]
 
 
-def seed_acl(rng, plat, n=None, numbered=None, groups=True, headings=True, multi=True, std=False):
+def seed_acl(rng, plat, n=None, numbered=None, groups=True, headings=True, multi=True, std=False, zero_ports=False):
     """returns (header, lines, groups dict)"""
     n = n if n is not None else rng.randint(1, 9)
     lines, gdict = [], {}
@@ -329,7 +329,8 @@ def seed_acl(rng, plat, n=None, numbered=None, groups=True, headings=True, multi
     pool = [native_only(ln, plat) for ln in pool]
     if plat == "ios":      # a port listed twice (by number and by name, or repeated) is still one port
         pool = [dup_port(rng, ln) if rng.random() < 0.12 else ln for ln in pool]
-        pool = [zero_port(rng, ln) if rng.random() < 0.05 else ln for ln in pool]
+        if zero_ports:     # only where nothing depends on whether port 0 belongs to the universe (C19: the split itself)
+            pool = [zero_port(rng, ln) if rng.random() < 0.08 else ln for ln in pool]
     for k, ln in enumerate(pool[:n]):
         if headings and rng.random() < 0.25:
             lines.append("remark " + rng.choice(HEADINGS + ["plain note", "= H1, details"]))
@@ -453,6 +454,8 @@ def make_history(rng, tid, weights, nops=None, plat=None, **seedkw):
         if op["act"] == "SetPlatform":
             if std:
                 op["plat"] = "ios"
+            if op.get("plat_spelled") not in {"ios": ["ios", "cisco_ios"], "nxos": ["nxos", "cnx", "cisco_nxos"]}[op["plat"]]:
+                op["plat_spelled"] = op["plat"]        # the spelling follows the (possibly adjusted) platform
             cur = op["plat"]
         if op["act"] == "Permute":
             op["perm"] = []
